@@ -131,6 +131,15 @@ pub fn exec_pro(case: &[u64]) -> L {
                 show_packets(&st.borrow().sent, &mut o);
                 o.push(st.borrow().gets.len() as u64);
             }
+            4 => {
+                { let mut s = st.borrow_mut(); s.gets.clear(); s.answers.clear(); s.sent.clear(); s.trace.clear(); }
+                log.borrow_mut().clear();
+                let cap = op[1] != 0; let kind = op[2]; let multi = op[3] != 0;
+                let (p, rest) = parse_packet(&op[4..]);
+                let (gls, ans) = split_lists(&rest[1..], rest[0] as usize);
+                { let mut s = st.borrow_mut(); for g in gls { s.gets.push_back(parse_gres(g).0); } s.answers = ans.iter().cloned().collect(); }
+                o = do_exchange(&mut proto, &st, &log, &ids, kind, cap, multi, p);
+            }
             _ => panic!("harness: bad op"),
         }
         out.push(o);
@@ -161,7 +170,26 @@ pub fn gen_pro(r: &mut Rng, thorough: bool, cx: &mut Ctx) {
         let mut issued: Vec<u64> = vec![]; let mut label = 100u64;
         for _ in 0..nops {
             let mut b: L = vec![];
-            match r.below(10) {
+            match r.below(12) {
+                10 | 11 => {
+                    // an exchange in the middle of the history: a few replies, packets that do not match (skipped), now and then a link error after a match
+                    let kind = r.below(16); let cap = r.chance(1, 3); let multi = r.coin();
+                    let dest = match r.below(4) { 0 => own, 1 => 0xffff, _ => other_addr(r, own) };
+                    b.extend_from_slice(&[4, cap as u64, kind, multi as u64]); let req = small_packet(r, dest); show_packet(&req, &mut b);
+                    let mut gets: Vec<L> = vec![];
+                    for _ in 0..r.below(6) {
+                        let mut g: L = vec![0];
+                        let pk = match r.below(5) {
+                            0 | 1 => { let mut p = ref_encode(&gen_event(r, kind, 12)); if kind != 1 && kind != 5 { p.device_address = if r.coin() { own } else { 0xffff }; } else if r.coin() { p.device_address = own; } p }
+                            2 => { let k2 = r.below(16); let mut p = ref_encode(&gen_event(r, k2, 12)); p.device_address = own; p }
+                            _ => { let a = if r.coin() { own } else { other_addr(r, own) }; small_packet(r, a) }
+                        };
+                        show_packet(&pk, &mut g); gets.push(g);
+                    }
+                    match r.below(4) { 0 => gets.push(vec![2, r.pick(&ERR_CODES)]), 1 => gets.push(vec![1]), _ => {} }
+                    b.push(gets.len() as u64); for g in gets.iter() { push_list(&mut b, g); }
+                    for _ in 0..r.below(2) { b.push(if r.chance(1, 4) { r.pick(&ERR_CODES) } else { 0 }); }
+                }
                 0 | 1 | 2 => { b.extend_from_slice(&[0, label, r.chance(1, 3) as u64]); label += 1;
                                let ns = if r.chance(1, 4) { r.range(1, 2) } else { 0 }; b.push(ns);
                                for _ in 0..ns { let a = match r.below(6) { 0 | 1 => 0xffff, 2 => own, _ => other_addr(r, own) }; let p = small_packet(r, a); show_packet(&p, &mut b); }
@@ -194,18 +222,8 @@ macro_rules! exch {
         else { $proto.exchange_packet::<_, $T>($p, $cap, $w).map(|e| vec![$V(e).fields().unwrap_or(vec![0xbad])]) }
     };
 }
-pub fn exec_exc(case: &[u64]) -> L {
-    DEPTH.with(|c| c.set(0));
-    let own = case[0] as u16; let cap = case[1] != 0; let kind = case[2]; let multi = case[3] != 0;
-    let (p, rest) = parse_packet(&case[4..]);
-    let nh = rest[0] as usize; let (hls, rest) = split_lists(&rest[1..], nh);
-    let ng = rest[0] as usize; let (gls, ans) = split_lists(&rest[1..], ng);
-    let st = Rc::new(RefCell::new(IfSt::default()));
-    let mut proto: Protocol<'static, MockIf> = Protocol::new(own, MockIf(st.clone()));
-    let log: Log = Rc::new(RefCell::new(vec![]));
-    let mut ids = std::collections::HashMap::new();
-    for h in hls { let (label, c, sends) = parse_add(&h[1..]); if let Ok(id) = proto.add_packet_handler(make_handler(label, sends, log.clone()), c) { ids.insert(label, id as u64); } }
-    { let mut s = st.borrow_mut(); for g in gls { s.gets.push_back(parse_gres(g).0); } s.answers = ans.iter().cloned().collect(); }
+// one exchange call on proto; returns the observation (result, handler log, trace, incoming results left)
+fn do_exchange(proto: &mut Protocol<'static, MockIf>, st: &Rc<RefCell<IfSt>>, log: &Log, ids: &std::collections::HashMap<u64, u64>, kind: u64, cap: bool, multi: bool, p: Packet) -> L {
     let stw = st.clone();
     let wait = move || { stw.borrow_mut().trace.push(vec![2]); };
     let r = catch_unwind(AssertUnwindSafe(|| match kind {
@@ -224,11 +242,25 @@ pub fn exec_exc(case: &[u64]) -> L {
         Ok(Err(e)) => { o.push(1); o.push(perr_code(&e)); }
         Ok(Ok(evs)) => { o.push(0); o.push(evs.len() as u64); for e in evs { o.push(e.len() as u64); o.extend(e); } }
     }
-    show_log(&log, &ids, &mut o);
+    show_log(log, ids, &mut o);
     let s = st.borrow();
     o.push(s.trace.len() as u64); for t in s.trace.iter() { o.extend(t); }
     o.push(s.gets.len() as u64);
     o
+}
+pub fn exec_exc(case: &[u64]) -> L {
+    DEPTH.with(|c| c.set(0));
+    let own = case[0] as u16; let cap = case[1] != 0; let kind = case[2]; let multi = case[3] != 0;
+    let (p, rest) = parse_packet(&case[4..]);
+    let nh = rest[0] as usize; let (hls, rest) = split_lists(&rest[1..], nh);
+    let ng = rest[0] as usize; let (gls, ans) = split_lists(&rest[1..], ng);
+    let st = Rc::new(RefCell::new(IfSt::default()));
+    let mut proto: Protocol<'static, MockIf> = Protocol::new(own, MockIf(st.clone()));
+    let log: Log = Rc::new(RefCell::new(vec![]));
+    let mut ids = std::collections::HashMap::new();
+    for h in hls { let (label, c, sends) = parse_add(&h[1..]); if let Ok(id) = proto.add_packet_handler(make_handler(label, sends, log.clone()), c) { ids.insert(label, id as u64); } }
+    { let mut s = st.borrow_mut(); for g in gls { s.gets.push_back(parse_gres(g).0); } s.answers = ans.iter().cloned().collect(); }
+    do_exchange(&mut proto, &st, &log, &ids, kind, cap, multi, p)
 }
 pub fn gen_exc(r: &mut Rng, thorough: bool, cx: &mut Ctx) {
     for kind in 0..16u64 {
